@@ -59,6 +59,10 @@ package sugardb
 //@   ensures wf1: has(server.keysWithExpiry.keys, database)
 //@   ensures wf2: server.lfuCache.cache[database] != nil && server.lruCache.cache[database] != nil
 //@   ensures wf3: server.lfuCache.cache[database].Mutex != nil && server.lruCache.cache[database].Mutex != nil
+//@   ensures index: fresh(server.keysWithExpiry.keys[database]) && len(server.keysWithExpiry.keys[database]) == 0
+//@   ensures {C08} lfuwf: inv(server.lfuCache.cache[database], all)
+//@   ensures {C08} lruwf: inv(server.lruCache.cache[database], all)
+//@   ensures {C08} keymaps: server.lfuCache.cache[database].keys != server.lruCache.cache[database].keys
 //@   ensures {C20} others: forall d int :: d != database ==> server.store[d] == old(server.store[d]) && server.keysWithExpiry.keys[d] == old(server.keysWithExpiry.keys[d]) && server.lfuCache.cache[d] == old(server.lfuCache.cache[d]) && server.lruCache.cache[d] == old(server.lruCache.cache[d])
 //@   ensures {C20} dbs: forall d int :: has(server.store, d) <==> (old(has(server.store, d)) || d == database)
 //@   ensures {C20} idx: forall d int :: d != database ==> (has(server.keysWithExpiry.keys, d) <==> old(has(server.keysWithExpiry.keys, d)))
@@ -118,8 +122,11 @@ package sugardb
 //@   ensures {C01} written: result == nil ==> (forall k string :: has(entries, k) ==> has(server.store[dbof(ctx)], k) && server.store[dbof(ctx)][k].Value == entries[k])
 //@   ensures {C04} deadline: result == nil ==> (forall k string :: has(entries, k) ==> server.store[dbof(ctx)][k].ExpireAt == (old(livekey(server, dbof(ctx), k, $now)) ? old(server.store[dbof(ctx)][k].ExpireAt) : zerotime))
 //@   ensures {C01,C20} otherkeys: forall k string :: !has(entries, k) ==> (has(server.store[dbof(ctx)], k) <==> old(has(server.store[dbof(ctx)], k))) && server.store[dbof(ctx)][k] == old(server.store[dbof(ctx)][k])
+//@   ensures {C01} partial: forall k string :: has(entries, k) ==> ((has(server.store[dbof(ctx)], k) <==> old(has(server.store[dbof(ctx)], k))) && server.store[dbof(ctx)][k] == old(server.store[dbof(ctx)][k])) || (has(server.store[dbof(ctx)], k) && server.store[dbof(ctx)][k].Value == entries[k])
 //@   ensures {C20} otherdbs: forall d int :: d != dbof(ctx) ==> server.store[d] == old(server.store[d])
 //@   ensures {C20} dbexists: result == nil ==> server.store[dbof(ctx)] != nil
+//@   ensures {C08} caches: old(cachewf(server, dbof(ctx))) ==> cachewf(server, dbof(ctx))
+//@   ensures index: server.keysWithExpiry.keys[dbof(ctx)] == old(server.keysWithExpiry.keys[dbof(ctx)]) || (old(server.store[dbof(ctx)] == nil) && fresh(server.keysWithExpiry.keys[dbof(ctx)]))
 //@   ensures {C19} accounting: result == nil ==> server.memUsed == old(server.memUsed) + sumover(k, dom(entries), 24 + valmem(old(entries[k])) + 16 + len(k) - (old(has(server.store[dbof(ctx)], k)) && memok(old(server.store[dbof(ctx)][k].Value)) ? entrymem(old(server.store[dbof(ctx)][k]), k) : 0))
 //@   modifies server.store[*], server.store[dbof(ctx)][*], server.memUsed, server.keysWithExpiry.keys[*], server.lfuCache.cache[*], server.lruCache.cache[*], heap:$atomic
 //@   loop 0
@@ -208,6 +215,7 @@ package sugardb
 //@   ensures {C20} otherkeys: forall k string :: k != key ==> (has(server.store[dbof(ctx)], k) <==> old(has(server.store[dbof(ctx)], k))) && server.store[dbof(ctx)][k] == old(server.store[dbof(ctx)][k])
 //@   ensures {C19} accounting: result == nil ==> server.memUsed == old(server.memUsed) - (old(has(server.store[dbof(ctx)], key)) ? entrymem(old(server.store[dbof(ctx)][key]), key) : 0)
 //@   ensures caches: cachewf(server, dbof(ctx))
+//@   ensures {C19} failed: result != nil ==> (forall k string :: (has(server.store[dbof(ctx)], k) <==> old(has(server.store[dbof(ctx)], k)))) && server.store[dbof(ctx)][key] == old(server.store[dbof(ctx)][key])
 //@   modifies server.store[dbof(ctx)][*], server.memUsed, server.keysWithExpiry.keys[*], server.keysWithExpiry.keys[dbof(ctx)][*], heap:F_eviction_CacheLFU_entries, heap:F_eviction_CacheLRU_entries, heap:E_Peviction_EntryLFU, heap:E_Peviction_EntryLRU, heap:Mdom_string_bool, heap:Mval_string_bool, heap:Mcard_string_bool, heap:F_eviction_EntryLFU_index, heap:F_eviction_EntryLRU_index
 
 //@ func (*SugarDB).getClock noalloc props C04
